@@ -21,7 +21,9 @@ LEVEL = 'exploration'
 CASE_TIMEOUT = 120
 BATCH_SIZE = {'quick': 4, 'thorough': 12}
 REQUIRED_COUNTERS = ['parents_checked', 'fallback_parents',
-                     'e2e_node_events_checked', 'expected_errors_seen']
+                     'e2e_node_events_checked', 'expected_errors_seen',
+                     'e2e_queries_with_marker_interior_shuffled',
+                     'e2e_votes_recomputed_by_name']
 RULE = ('layer 1: generated (taxonomy, marker table, query gene set, '
         'min_markers, flatten / dropped level) fed to the real '
         'create_marker_cache_from_specified_markers, cache file read back; '
@@ -335,6 +337,28 @@ def run_e2e(spec, work, counters, viol, feats):
             table[key] = list(table[key]) + ['unk_absent_gene']
     w.marker_table = table
     w.marker_path.write_text(json.dumps(table))
+    if spec.get('e2e_order') == 'markers-interior-shuffled':
+        # query written in the reference's gene order, except that the
+        # genes between the first and the last marker of this table are
+        # shuffled: pairing by position instead of by name would go wrong
+        qpos = {g: i for i, g in enumerate(w.query_genes)}
+        order = [qpos[g] for g in w.ref_genes if g in qpos] + \
+            [i for i, g in enumerate(w.query_genes)
+             if g not in set(w.ref_genes)]
+        allm = set()
+        for v in table.values():
+            allm |= set(v)
+        mk = [k for k, i in enumerate(order) if w.query_genes[i] in allm]
+        if len(mk) >= 4:
+            inner = np.arange(mk[0] + 1, mk[-1])
+            order = np.array(order)
+            order[inner] = order[rng.permutation(inner)]
+            w.Xq = w.Xq[:, order]
+            w.query_genes = [w.query_genes[i] for i in order]
+            mapworld.write_h5ad(w.query_path, w.Xq, w.cell_ids,
+                                w.query_genes,
+                                encoding=w.spec['encoding'])
+            counters['e2e_queries_with_marker_interior_shuffled'] = 1
     red = oracles.reduced_model(w)
     tbl = dict(table)
     if w.config['flatten']:
@@ -400,9 +424,14 @@ def run_e2e(spec, work, counters, viol, feats):
                                  'msg': f'{lv}/{node} reports {got}'})
     # (2) the genes actually multiplied (node events) are the same
     c2, d2 = {}, {}
+    # ... and query / reference values are paired by name: every vote,
+    # probability and correlation recomputed by the name-based oracle
     v2, node_genes = vote_oracle.check_votes(
-        w, js['results'], r['trace'], c2, d2, check_outputs=False)
-    viol += v2
+        w, js['results'], r['trace'], c2, d2, check_outputs=True)
+    viol += [dict(v, sig=v['sig'].replace('C02:', 'C08:e2e-values-'))
+             for v in v2]
+    counters['e2e_votes_recomputed_by_name'] = counters.get(
+        'e2e_votes_recomputed_by_name', 0) + c2.get('votes_recomputed', 0)
     for key, genes in node_genes.items():
         counters['e2e_node_events_checked'] = counters.get(
             'e2e_node_events_checked', 0) + 1
@@ -438,6 +467,8 @@ def gen_cases(tier, seed):
         c['e2e_class'] = ['wild', 'wild', 'wild', 'wild', 'root-unusable',
                           'unknown-to-reference', 'wild',
                           'unknown-to-reference-absent-from-query'][i % 8]
+        if i % 2 == 0:
+            c['e2e_order'] = 'markers-interior-shuffled'
         cases.append(c)
     return cases
 
